@@ -5,3 +5,4 @@
 -/
 import ForsysModel.Props.C02
 import ForsysModel.Props.C02matrix
+import ForsysModel.Props.C02more
